@@ -20,7 +20,7 @@ func TestMain(m *testing.M) { h.Main(m, "C20") }
 
 func TestReplay(t *testing.T) { h.ReplayAll(t) }
 
-// Keys of the genuine defects this check found (listed in known_findings.d/C20.json). The search continues behind them.
+// Keys of the genuine defects this check found (listed in known_findings.json). The search continues behind them.
 const (
 	// rgsw.Encryptor, RGSW ciphertext without auxiliary modulus (LevelP = -1), secret-key encryption or public-key
 	// encryption under parameters without P: the rows are produced by the ring.Poly branch of the rlwe encryptor, which
